@@ -56,6 +56,18 @@ type Sess struct {
 	// While (contention cases, kinds that ask for the lock inside Run): the session is cancelled
 	// (cancel) or hits the TSS timeout (timeout) while its Run waits for the lock
 	While string `json:"while,omitempty"`
+	// Entry (outcome CancelledBeforeEntry): the state of the context handed to Execute: "" already
+	// cancelled | deadline (a deadline that has already passed)
+	Entry string `json:"entry,omitempty"`
+}
+
+// Stress: the REAL store object under contention (stress.go)
+type Stress struct {
+	Store   string `json:"store"` // ecdsa | frost
+	Workers int    `json:"workers"`
+	Pairs   int    `json:"pairs"`
+	Yield   bool   `json:"yield,omitempty"` // workers yield the processor inside the critical section
+	Procs   int    `json:"procs,omitempty"` // GOMAXPROCS of the child (0 = all)
 }
 
 type Case struct {
@@ -64,12 +76,17 @@ type Case struct {
 	// Contention: the sessions OVERLAP on one store whose Lock really blocks (conc.go): Sessions[0]
 	// holds the lock while the others ask for it
 	Contention bool `json:"contention,omitempty"`
+	// Stress: no session at all - balanced Lock/Unlock pairs on the real store in a child process
+	Stress *Stress `json:"stress,omitempty"`
 }
 
 type Obs struct {
 	Ledger []string `json:"ledger"`
 	// contention cases: Ledger[i] belongs to session Threads[i]
 	Threads []int `json:"threads,omitempty"`
+	// stress cases: pairs completed per worker and the final value of the shared counter
+	Dones   []int `json:"dones,omitempty"`
+	Counter int   `json:"counter,omitempty"`
 	Real   int      `json:"real"` // 0 not replayed, 1 completed + lock free, 2 fatal unlock, 3 lock not free (a constructor or the final probe blocked)
 	Note   string   `json:"note,omitempty"`
 }
@@ -112,6 +129,8 @@ type party struct {
 	// the party's own copies of the key-share fixtures (the files behind es / fs)
 	dir          string
 	epath, fpath string
+	// the state the harness last put each file in (prepare)
+	eState, fState string
 }
 
 func (p *party) cleanup() {
@@ -160,6 +179,49 @@ func (p *party) prepare(s Sess) {
 	}
 	setShare(p.epath, fixture(p.idx, false), es)
 	setShare(p.fpath, fixture(p.idx, true), fs)
+	// The harness has replaced a key-share file behind the store's back (on a relayer this is an
+	// operator restoring / losing the file while the relayer is down): the relayer comes up with a new
+	// store object - what a store may have kept in memory is gone.  The mutex of the old object must
+	// be free at that point (a leaked lock is reported, as at every constructor).
+	if es != p.eState {
+		p.eState = es
+		switch st := p.es.(type) {
+		case *tssfakes.CountingECDSAStorer:
+			st.File = keyshare.NewECDSAKeyshareStore(p.epath)
+		case *keyshare.ECDSAKeyshareStore:
+			p.mustBeFree(st)
+			p.es = keyshare.NewECDSAKeyshareStore(p.epath)
+		}
+	}
+	if fs != p.fState {
+		p.fState = fs
+		switch st := p.fs.(type) {
+		case *tssfakes.CountingFrostStorer:
+			st.File = keyshare.NewFrostKeyshareStore(p.fpath)
+		case *keyshare.FrostKeyshareStore:
+			p.mustBeFree(st)
+			p.fs = keyshare.NewFrostKeyshareStore(p.fpath)
+		}
+	}
+}
+
+// mustBeFree (child process on the real stores): the store's lock can be taken within 5 s.
+func (p *party) mustBeFree(st interface {
+	LockKeyshare()
+	UnlockKeyshare()
+}) {
+	free := make(chan struct{})
+	go func() {
+		st.LockKeyshare()
+		st.UnlockKeyshare()
+		close(free)
+	}()
+	select {
+	case <-free:
+	case <-time.After(5 * time.Second):
+		fmt.Println("REAL_HELD")
+		os.Exit(0)
+	}
 }
 
 func fixture(i int, frost bool) string {
@@ -454,6 +516,19 @@ func (p *party) session(s Sess) string {
 		p.answerInitiate(false)
 	case "NeverCancelled":
 		p.answerInitiate(false)
+	case "CancelledBeforeEntry":
+		// the caller has given up before Execute is called (the executor cancelled its execution
+		// context: the proposal is already executed; a shared pool context cancelled by a sibling; a
+		// deadline that has passed).  Nobody answers: whichever branch of the wait loops is taken, Run
+		// is not called.
+		p.answerInitiate(false)
+		if s.Entry == "deadline" {
+			var c2 context.CancelFunc
+			ctx, c2 = context.WithDeadline(ctx, time.Now().Add(-time.Second))
+			defer c2()
+		} else {
+			cancel()
+		}
 	case "RanFailed":
 		switch s.Kind {
 		case "EcdsaKeygen", "FrostKeygen", "EcdsaResharing", "FrostResharing":
@@ -650,6 +725,9 @@ func run(c Case) Obs {
 	if len(c.Sessions) == 1 && c.Sessions[0].Outcome == "RanSucceeded" {
 		return succeedFuture(c.Sessions[0].Kind)
 	}
+	if c.Stress != nil {
+		return runStress(c)
+	}
 	if c.Contention {
 		futMu.Lock()
 		for _, k := range prefetch {
@@ -749,7 +827,8 @@ func child(js string) {
 // ---- generation / printing -----------------------------------------------------------------------
 
 var kinds = []string{"EcdsaKeygen", "FrostKeygen", "EcdsaResharing", "FrostResharing", "EcdsaSigning", "FrostSigning"}
-var cheap = []string{"NeverSilent", "NeverTimeout", "NeverCancelled", "StartMalformed", "ParamsRejected", "RanFailed", "Refused", "Rerun"}
+var cheap = []string{"NeverSilent", "NeverTimeout", "NeverCancelled", "StartMalformed", "ParamsRejected", "RanFailed", "Refused", "Rerun", "CancelledBeforeEntry"}
+var entries = []string{"", "deadline"}
 var badShares = []string{"missing", "corrupt", "unreadable"}
 var seconds = []string{"", "one", "subset"}
 
@@ -831,6 +910,15 @@ func gen(r *vgen.Rng, tier string) []Case {
 				}
 				continue
 			}
+			if oc == "CancelledBeforeEntry" {
+				// the state in which Execute is ENTERED: both roles x {already cancelled, deadline passed}
+				for i, role := range roles(k, oc) {
+					for j, en := range entries {
+						out = append(out, Case{Sessions: []Sess{{Kind: k, Outcome: oc, Role: role, Entry: en}}, Real: i == j})
+					}
+				}
+				continue
+			}
 			for _, role := range roles(k, oc) {
 				out = append(out, Case{Sessions: []Sess{{Kind: k, Outcome: oc, Role: role}}, Real: role == roles(k, oc)[0]})
 			}
@@ -865,6 +953,7 @@ func gen(r *vgen.Rng, tier string) []Case {
 	// sessions that overlap on one store whose Lock really blocks (conc.go); they come first and the
 	// slow complete runs are started in the background when the first of them is reached
 	out = append(genContention(r, tier), out...)
+	out = append(out, genStress(r, tier)...)
 	nseq := 40
 	if tier == "thorough" {
 		nseq = 600
@@ -883,11 +972,14 @@ func gen(r *vgen.Rng, tier string) []Case {
 			if !feasible(k, oc) || slow(k, oc) {
 				continue
 			}
-			sec := ""
+			sec, en := "", ""
 			if oc == "Rerun" {
 				sec = vgen.Pick(r, seconds)
 			}
-			ss = append(ss, Sess{Kind: k, Outcome: oc, Role: vgen.Pick(r, rolesIn(k, oc, sh)), Share: sh, Second: sec})
+			if oc == "CancelledBeforeEntry" {
+				en = vgen.Pick(r, entries)
+			}
+			ss = append(ss, Sess{Kind: k, Outcome: oc, Role: vgen.Pick(r, rolesIn(k, oc, sh)), Share: sh, Second: sec, Entry: en})
 		}
 		// every fifth sequence is replayed on the real stores
 		out = append(out, Case{Sessions: ss, Real: i%5 == 0})
@@ -908,6 +1000,10 @@ func shareName(s string) string {
 }
 
 func coq(c Case, o Obs) string {
+	if c.Stress != nil {
+		return "StoreStress " + vgen.Bool(c.Stress.Store == "frost") + " " + vgen.N(uint64(c.Stress.Workers)) + " " + vgen.N(uint64(c.Stress.Pairs)) + " " +
+			vgen.ListOf(o.Dones, func(d int) string { return vgen.N(uint64(d)) }) + " " + vgen.N(uint64(o.Counter)) + " " + vgen.Nat(o.Real)
+	}
 	led := vgen.ListOf(o.Ledger, func(s string) string { return s })
 	if o.Note != "" {
 		// the harness could not drive the session as asked: make the case fail as a broken
@@ -943,6 +1039,13 @@ func coq(c Case, o Obs) string {
 }
 
 func kindOf(c Case) string {
+	if c.Stress != nil {
+		k := "stress/" + c.Stress.Store
+		if c.Stress.Yield {
+			k += "/yield"
+		}
+		return k
+	}
 	if len(c.Sessions) == 1 {
 		k := c.Sessions[0].Kind + "/" + c.Sessions[0].Outcome
 		if c.Sessions[0].Share != "" {
@@ -953,6 +1056,9 @@ func kindOf(c Case) string {
 		}
 		if c.Sessions[0].Second != "" {
 			k += "/second-" + c.Sessions[0].Second
+		}
+		if c.Sessions[0].Entry != "" {
+			k += "/entry-" + c.Sessions[0].Entry
 		}
 		return k
 	}
@@ -974,6 +1080,10 @@ func main() {
 	if err != nil {
 		panic(err)
 	}
+	if js := os.Getenv("VERIF_C10_STRESS"); js != "" {
+		stressChild(js)
+		return
+	}
 	if js := os.Getenv("VERIF_C10_CHILD"); js != "" {
 		child(js)
 		return
@@ -985,7 +1095,7 @@ func main() {
 		Run:        run,
 		Coq:        coq,
 		Kind:       kindOf,
-		NonTrivial: func(c Case, o Obs) bool { return len(o.Ledger) > 0 || len(c.Sessions) > 0 },
-		Rule:       "every process kind x every feasible outcome x the roles in which it can arise, each on a fresh counting store (half of them replayed on the real sync.Mutex store in a child process); every kind x {missing, corrupt, unreadable key-share file}: the signing constructors fail, keygen/resharing sessions take their usual courses; FROST signing with undecodable tweaks; random sequences of 2..7 sessions on one store, a third of the sessions on an unreadable share file, every fifth sequence replayed on the real stores; retried attempts (Run twice on the same signing object through Coordinator.handleError, three kinds of second start message); contention: a constructor-locking holder x 1..4 overlapping sessions of the kinds on its store (cancelled / timed out while waiting inside Run, waiting in their constructors, refused, retried) on a store whose Lock blocks, merged ledger with one tag per session; distinct = distinct input JSON; every case is non-trivial (a real constructor and the real Execute run in each)",
+		NonTrivial: func(c Case, o Obs) bool { return len(o.Ledger) > 0 || len(c.Sessions) > 0 || c.Stress != nil },
+		Rule:       "every process kind x every feasible outcome x the roles in which it can arise, each on a fresh counting store (half of them replayed on the real sync.Mutex store in a child process); every kind x {missing, corrupt, unreadable key-share file}: the signing constructors fail, keygen/resharing sessions take their usual courses; FROST signing with undecodable tweaks; random sequences of 2..7 sessions on one store, a third of the sessions on an unreadable share file, every fifth sequence replayed on the real stores; retried attempts (Run twice on the same signing object through Coordinator.handleError, three kinds of second start message); contention: a constructor-locking holder x 1..4 overlapping sessions of the kinds on its store (cancelled / timed out while waiting inside Run, waiting in their constructors, refused, retried) on a store whose Lock blocks, merged ledger with one tag per session; the state in which Execute is entered: every kind x both roles x {context already cancelled, deadline already passed}, alone, replayed on the real stores, in the sequences and as contenders; stress: 2..32 goroutines x tens of thousands of balanced LockKeyshare/UnlockKeyshare pairs with a non-atomic counter increment inside, on the REAL ECDSA and FROST store objects in a child process (stall detector, final Lock with a deadline); distinct = distinct input JSON; every case is non-trivial (a real constructor and the real Execute run in each)",
 	})
 }
